@@ -1,9 +1,159 @@
 //go:build verif
 
 // Contracts for package runner/llamarunner (property C07), checked by /verif/govc.
+//
+// Twin of runner/ollamarunner/verif_contracts.go. The KV cache here is llama.cpp behind
+// the cgo bindings of package llama; its state is the ghost field lc.ghost_ver (a version
+// number) and the uninterpreted predicate llhas(version, seq, pos) = "the cache holds a
+// cell of sequence seq at position pos". llama.cpp removes cells without renumbering the
+// later ones (the runner renumbers with KvCacheSeqAdd), hence positions, not lengths.
+//
+//	I(c):  for every slot k and position q:  slots[k].Id == k  and  llhas(state, k, q) <==> 0 <= q < len(slots[k].Inputs)
+//
+// errors.New / fmt.Errorf "never nil" are declared in the ollamarunner contract file.
 package llamarunner
+
+//@ spec func llhas(ver int, seq int, pos int) bool
+
+
+// ---- llama.cpp KV cache through package llama (trusted; llama.h: p0 < 0 means 0, p1 < 0 means "to the end") ----
+
+// seq_rm: removes the cells of seqId at positions [p0, p1); false = nothing could be removed
+// (partial removal unsupported); removing a whole sequence always succeeds (A-remove-all).
+//@ extern func llama.(*Context).KvCacheSeqRm
+//@   modifies this.ghost_ver
+//@   ensures result ==> forall s int, q int :: llhas(this.ghost_ver, s, q) <==> (llhas(old(this.ghost_ver), s, q) && !(s == seqId && p0 <= q && (p1 < 0 || q < p1)))
+//@   ensures !result ==> forall s int, q int :: llhas(this.ghost_ver, s, q) <==> llhas(old(this.ghost_ver), s, q)
+//@   ensures p0 <= 0 && p1 < 0 ==> result
+
+// seq_add: the cells of seqId at positions [p0, p1) move to position + delta.
+//@ extern func llama.(*Context).KvCacheSeqAdd
+//@   requires 0 <= p0 && p0 <= p1
+//@   modifies this.ghost_ver
+//@   ensures forall s int, q int :: llhas(this.ghost_ver, s, q) <==> ((s != seqId && llhas(old(this.ghost_ver), s, q)) || (s == seqId && llhas(old(this.ghost_ver), s, q) && !(p0 <= q && q < p1)) || (s == seqId && p0 <= q - delta && q - delta < p1 && llhas(old(this.ghost_ver), s, q - delta)))
+
+// seq_cp: dstSeqId additionally gets the cells of srcSeqId at positions [p0, p1).
+//@ extern func llama.(*Context).KvCacheSeqCp
+//@   modifies this.ghost_ver
+//@   ensures forall s int, q int :: llhas(this.ghost_ver, s, q) <==> (llhas(old(this.ghost_ver), s, q) || (s == dstSeqId && p0 <= q && (p1 < 0 || q < p1) && llhas(old(this.ghost_ver), srcSeqId, q)))
+
+//@ extern func llama.(*Context).KvCacheCanShift
+//@   modifies nothing
+
+// ---- countCommonPrefix ----
 
 //@ func countCommonPrefix
 //@   modifies nothing
 //@   ensures 0 <= result && result <= len(a) && result <= len(b)
 //@   loop 1 invariant count == rangeindex + 1 && count <= len(a) && count <= len(b)
+
+// ---- ShiftDiscard ----
+
+//@ func (*InputCache).ShiftDiscard
+//@   modifies nothing
+//@   requires 0 <= numKeep && numKeep < c.numCtx && 0 <= inputLen && c.numCtx < (1 << 62) && inputLen < (1 << 62)
+//@   ensures 0 <= result && result <= inputLen
+//@   ensures result > 0 ==> numKeep + result <= inputLen
+//@   ensures inputLen - result < c.numCtx
+//@   ensures inputLen <= c.numCtx - max((c.numCtx - numKeep) / 2, 1) ==> result == 0
+//@   ensures inputLen == c.numCtx ==> result == max((c.numCtx - numKeep) / 2, 1)
+
+// ---- findLongestCacheSlot ----
+
+//@ func (*InputCache).findLongestCacheSlot
+//@   modifies nothing
+//@   ensures result.2 == nil ==> exists j int :: 0 <= j && j < len(c.slots) && result.0 == &c.slots[j]
+//@   ensures result.2 == nil ==> !result.0.InUse
+//@   ensures result.2 == nil ==> 0 <= result.1 && result.1 <= len(result.0.Inputs) && result.1 <= len(prompt)
+//@   ensures result.2 != nil ==> result.0 == nil && forall k int :: 0 <= k && k < len(c.slots) ==> c.slots[k].InUse
+//@   loop 1 invariant longestSlot == nil ==> longest == -1 && forall k int :: 0 <= k && k <= rangeindex ==> c.slots[k].InUse
+//@   loop 1 invariant longestSlot != nil ==> exists j int :: 0 <= j && j <= rangeindex && longestSlot == &c.slots[j]
+//@   loop 1 invariant longestSlot != nil ==> !longestSlot.InUse && 0 <= longest && longest <= len(longestSlot.Inputs) && longest <= len(prompt)
+
+// ---- findBestCacheSlot ----
+// Fork: the evicted slot's sequence is emptied (KvCacheSeqRm(dst, 0, -1)) and then receives
+// positions [0, n) of the source (KvCacheSeqCp(src, dst, 0, n)), n = the length of the copied inputs.
+// `opt safe+ nil`: see the ollamarunner twin (oldestSlot may stay nil).
+
+//@ func (*InputCache).findBestCacheSlot
+//@   opt safe+ nil
+//@   requires len(c.slots) >= 1 && !fresh(c.lc)      -- !fresh: c.lc existed before the call (pointer type invariant; the engine assumes it only for pointers loaded by code)
+//@   requires forall k int :: 0 <= k && k < len(c.slots) ==> c.slots[k].Id == k
+//@   requires c.lc != nil ==> forall k int, q int :: 0 <= k && k < len(c.slots) ==> (llhas(c.lc.ghost_ver, k, q) <==> (0 <= q && q < len(c.slots[k].Inputs)))
+//@   modifies c.slots[all], c.lc.ghost_ver
+//@
+//@   ensures result.2 == nil ==> exists j int :: 0 <= j && j < len(c.slots) && result.0 == &c.slots[j]
+//@   ensures result.2 == nil ==> !result.0.InUse
+//@   ensures result.2 == nil ==> 0 <= result.1 && result.1 <= len(result.0.Inputs) && result.1 <= len(prompt)
+//@   ensures result.2 != nil ==> result.0 == nil
+//@   ensures forall k int :: 0 <= k && k < len(c.slots) ==> c.slots[k].Id == old(c.slots[k].Id) && c.slots[k].InUse == old(c.slots[k].InUse) && c.slots[k].lastUsed == old(c.slots[k].lastUsed)
+//@   ensures forall k int :: 0 <= k && k < len(c.slots) && (result.2 != nil || result.0 != &c.slots[k]) ==> c.slots[k].Inputs == old(c.slots[k].Inputs)
+//@   ensures result.2 == nil ==> result.0.Inputs == old(result.0.Inputs) || (len(result.0.Inputs) == result.1 && fresh(&result.0.Inputs[0]))
+//@   ensures c.lc != nil ==> forall k int, q int :: 0 <= k && k < len(c.slots) ==> (llhas(c.lc.ghost_ver, k, q) <==> (0 <= q && q < len(c.slots[k].Inputs)))
+//@   ensures result.2 != nil ==> c.lc.ghost_ver == old(c.lc.ghost_ver)
+//@
+//@   assert-at call KvCacheSeqRm #1 : arg1 == oldestSlot.Id && arg2 <= 0 && arg3 < 0
+//@   assert-at call KvCacheSeqCp #1 : arg1 == longestSlot.Id && arg2 == oldestSlot.Id && arg3 == 0 && arg4 == longest && arg1 != arg2
+//@   assert-at call KvCacheSeqCp #1 : len(oldestSlot.Inputs) == longest && forall k int :: 0 <= k && k < longest ==> oldestSlot.Inputs[k] == longestSlot.Inputs[k]
+//@
+//@   loop 1 invariant -1 <= longest && (rangeindex >= 0 ==> longestSlot != nil) && (longestSlot == nil ==> longest == -1)
+//@   loop 1 invariant longestSlot != nil ==> exists j int :: 0 <= j && j <= rangeindex && longestSlot == &c.slots[j]
+//@   loop 1 invariant longestSlot != nil ==> 0 <= longest && longest <= len(longestSlot.Inputs) && longest <= len(prompt)
+//@   loop 1 invariant oldestSlot != nil ==> exists j int :: 0 <= j && j <= rangeindex && oldestSlot == &c.slots[j]
+//@   loop 1 invariant oldestSlot != nil ==> !oldestSlot.InUse
+
+// ---- LoadCacheSlot ----
+
+//@ func (*InputCache).LoadCacheSlot
+//@   requires 1 <= len(prompt) && len(c.slots) >= 1 && c.lc != nil && !fresh(c.lc)
+//@   requires &c.slots[0] != nil      -- Go type invariant of a non-empty slice; see the ollamarunner twin
+//@   requires forall k int :: 0 <= k && k < len(c.slots) ==> c.slots[k].Id == k
+//@   requires forall k int, q int :: 0 <= k && k < len(c.slots) ==> (llhas(c.lc.ghost_ver, k, q) <==> (0 <= q && q < len(c.slots[k].Inputs)))
+//@   modifies c.slots[all], c.lc.ghost_ver
+//@
+//@   ensures result.2 == nil ==> exists j int :: 0 <= j && j < len(c.slots) && result.0 == &c.slots[j]
+//@   ensures result.2 == nil ==> !old(result.0.InUse) && result.0.InUse
+//@   ensures forall k int :: 0 <= k && k < len(c.slots) && (result.2 != nil || result.0 != &c.slots[k]) ==> c.slots[k].InUse == old(c.slots[k].InUse) && c.slots[k].Inputs == old(c.slots[k].Inputs)
+//@   ensures forall k int :: 0 <= k && k < len(c.slots) ==> c.slots[k].Id == old(c.slots[k].Id)
+//@   ensures result.2 == nil ==> len(result.1) >= 1 && len(result.0.Inputs) + len(result.1) == len(prompt)
+//@   ensures result.2 == nil ==> result.1 == prompt[len(result.0.Inputs):]
+//@   ensures result.2 == nil && !cachePrompt ==> len(result.0.Inputs) == 0
+//@   ensures forall k int, q int :: 0 <= k && k < len(c.slots) ==> (llhas(c.lc.ghost_ver, k, q) <==> (0 <= q && q < len(c.slots[k].Inputs)))
+//@   ensures result.2 != nil ==> result.0 == nil && c.lc.ghost_ver == old(c.lc.ghost_ver)
+//@
+//@   assert-at call KvCacheSeqRm #1 : arg1 == slot.Id && arg2 == numPast && arg3 < 0
+//@   assert-at call KvCacheSeqRm #1 : 0 <= numPast && numPast < len(prompt) && numPast <= len(slot.Inputs)
+//@   assert-at call KvCacheSeqRm #2 : arg1 == slot.Id && arg2 <= 0 && arg3 < 0
+//@   assert-at return #2 : slot.Id >= 0 && slot.Id < len(c.slots) && slot == &c.slots[slot.Id]      -- proof hints: split I(c) into the selected slot and the others
+//@   assert-at return #2 : forall q int :: llhas(c.lc.ghost_ver, slot.Id, q) <==> (0 <= q && q < numPast)
+//@   assert-at return #2 : forall k int, q int :: 0 <= k && k < len(c.slots) && k != slot.Id ==> (llhas(c.lc.ghost_ver, k, q) <==> (0 <= q && q < len(c.slots[k].Inputs)))
+
+// ---- ShiftCacheSlot ---- (clauses as in the ollamarunner twin; loop 1 is the in-place shift)
+
+//@ func (*InputCache).ShiftCacheSlot
+//@   requires 0 <= numKeep && c.lc != nil && !fresh(c.lc) && c.numCtx < (1 << 62) && len(slot.Inputs) < (1 << 62)
+//@   requires forall q int :: llhas(c.lc.ghost_ver, slot.Id, q) <==> (0 <= q && q < len(slot.Inputs))
+//@   modifies slot.Inputs, slot.Inputs[all], c.lc.ghost_ver
+//@
+//@   ensures result == nil ==> len(slot.Inputs) <= old(len(slot.Inputs)) && len(slot.Inputs) < c.numCtx
+//@   ensures result == nil && len(slot.Inputs) < old(len(slot.Inputs)) ==> numKeep <= len(slot.Inputs)
+//@   ensures result == nil && old(len(slot.Inputs)) == c.numCtx ==> old(len(slot.Inputs)) - len(slot.Inputs) == max((c.numCtx - numKeep) / 2, 1)
+//@   ensures result == nil ==> forall k int :: 0 <= k && k < numKeep && k < len(slot.Inputs) ==> slot.Inputs[k] == old(slot.Inputs[k])
+//@   ensures result == nil ==> forall k int, d int :: numKeep <= k && k < len(slot.Inputs) && d == old(len(slot.Inputs)) - len(slot.Inputs) ==> slot.Inputs[k] == old(slot.Inputs[k + d])
+//@   ensures result == nil ==> forall q int :: llhas(c.lc.ghost_ver, slot.Id, q) <==> (0 <= q && q < len(slot.Inputs))
+//@   ensures result != nil && numKeep < c.numCtx ==> len(slot.Inputs) == 0
+//@   ensures result != nil && numKeep < c.numCtx ==> forall q int :: !llhas(c.lc.ghost_ver, slot.Id, q)
+//@   ensures result != nil && numKeep >= c.numCtx ==> slot.Inputs == old(slot.Inputs) && c.lc.ghost_ver == old(c.lc.ghost_ver)
+//@
+//@   assert-at call KvCacheSeqRm #1 : arg1 == slot.Id && arg2 == numKeep && arg3 == numKeep + discard && 0 < discard && arg3 <= inputLen
+//@   assert-at call KvCacheSeqAdd #1 : arg1 == slot.Id && arg2 == numKeep + discard && arg3 == inputLen && arg4 == -discard
+//@   assert-at call KvCacheSeqRm #2 : arg1 == slot.Id && arg2 <= 0
+//@   assert-at call KvCacheSeqRm #2 : arg3 < 0      -- "remove the whole sequence": llama.cpp reads a negative p1 as "to the end"
+//@   assert-at return #3 : len(newInputs) == inputLen - discard
+//@   assert-at return #3 : forall k int :: 0 <= k && k < numKeep ==> newInputs[k] == old(slot.Inputs[k])
+//@   assert-at return #3 : forall k int :: numKeep <= k && k < inputLen - discard ==> newInputs[k] == old(slot.Inputs[k + discard])
+//@
+//@   loop 1 invariant numKeep + discard <= i && i <= inputLen && slot.Inputs == old(slot.Inputs)
+//@   loop 1 invariant forall k int :: 0 <= k && k < numKeep ==> slot.Inputs[k] == old(slot.Inputs[k])
+//@   loop 1 invariant forall k int :: numKeep <= k && k < i - discard ==> slot.Inputs[k] == old(slot.Inputs[k + discard])
+//@   loop 1 invariant forall k int :: i <= k && k < inputLen ==> slot.Inputs[k] == old(slot.Inputs[k])
